@@ -650,9 +650,17 @@ def replay(path):
     return 1
 
 
+def ready_ids(mods):
+    ready_path = os.path.join(ROOT, "checks", "ready.txt")
+    return set(open(ready_path).read().split()) if os.path.exists(ready_path) else set(mods)
+
+
 def setup():
     t0 = time.time()
     mods = load_checks()
+    # only the integrated checks (checks/ready.txt) are built: a family that is still being written must not
+    # be able to break the setup of the others
+    mods = {k: v for k, v in mods.items() if k in ready_ids(mods)}
     os.makedirs(WORK, exist_ok=True)
     # translator first (Gen/*.v are inputs of the Coq build)
     gens = sorted({g for m in mods.values() for g in (getattr(m, "GEN", None) or [])})
@@ -665,14 +673,16 @@ def setup():
         log(out.strip()[-2000:])
         if rc != 0:
             return 1
+    targets = sorted({m.PROPS[:-2] + ".vo" for m in mods.values()} |
+                     {t for m in mods.values() for t in getattr(m, "COQ_EXTRA_TARGETS", ())})
     with Lock("coq"):
         coq_project()
-        rc, out = sh(["make", "-j%d" % NPROC], cwd=COQ, timeout=7200)
+        rc, out = sh(["make", "-j%d" % NPROC] + targets, cwd=COQ, timeout=7200)
     log("\n".join(l for l in out.splitlines() if not l.startswith("COQC") and not l.startswith("COQDEP") and "Closed under" not in l)[-4000:])
     if rc != 0:
         log("setup: Coq build failed")
         return 1
-    bad = coq_hygiene()
+    bad = coq_hygiene(sorted({f for m in mods.values() for f in coq_deps(m.PROPS)}))
     if bad:
         log("setup: hygiene gate: forbidden vernacular in the development:\n  " + "\n  ".join(bad[:30]))
         return 1
@@ -698,9 +708,7 @@ def manifest():
     checks = []
     # checks/ready.txt: the properties whose check has been integrated (run on the unchanged tree, reviewed,
     # committed); a check module that is still being built is not claimed yet
-    ready_path = os.path.join(ROOT, "checks", "ready.txt")
-    ready = set(open(ready_path).read().split()) if os.path.exists(ready_path) else set(mods)
-    mods = {k: v for k, v in mods.items() if k in ready}
+    mods = {k: v for k, v in mods.items() if k in ready_ids(mods)}
     for pid in all_ids:
         if pid not in mods:
             continue
